@@ -9,6 +9,16 @@ TB = ("Trusted: Lean 4.33 kernel; axioms propext / Classical.choice / Quot.sound
       "every run; no sorry, native_decide, bv_decide or user axioms); the correspondence harness and its generators; ")
 
 CHECKS = {
+    "C01": dict(
+        text="T1: the codec tables (kinds, keys, positions, optional flags, defaults, union alternatives, hash sizes) are "
+             "regenerated from /repo's live classes on every run and the kernel re-checks (decide +kernel) that the table "
+             "is well-formed and that the certificate / governance-action unions dispatch unambiguously; Lean generic "
+             "codec interpreter over that table with theorems on the table-driven fragment; T2: type-directed generation "
+             "over all extracted classes comparing bytes, decoded values and re-encodings of model and implementation, plus "
+             "direct evaluation of decode(encode(x)) == x and re-encode equality.",
+        ref="3 C01", technique="Lean 4 proof over a schema regenerated from the source (translator) + generic codec model/implementation correspondence",
+        note=TB + "classes with a hand-written codec are opaque leaves of the generic model: their round trip is judged on "
+                  "the implementation only; recorded defect KF-C01-post-alonzo-flag."),
     "C04": dict(
         text="Lean theorems over the model of DictCBORSerializable's canonical sort and of Asset/MultiAsset/Value "
              "serialization: encoded bytes are a function of content (any two insertion orders / stored zeros / empty "
